@@ -69,6 +69,12 @@ var targets = []string{
 	"CurlyRouter.detectWebService",
 	"CurlyRouter.selectRoutes",
 	"Container.computeAllowedMethods",
+	"sortableCurlyRoutes.routes",
+	"CurlyRouter.detectRoute",
+	"CurlyRouter.SelectRoute",
+	"RouterJSR311.selectRoutes",
+	"RouterJSR311.detectDispatcher",
+	"RouterJSR311.SelectRoute",
 }
 
 // fuel: bound of the `for { … }` loops of a function, as a Go expression over its parameters
@@ -629,6 +635,8 @@ func (t *tr) call(c *ast.CallExpr) (string, bool) {
 			return "(" + a[0] + " ++ " + a[1] + ")", mon
 		}
 		fail("append form %s", src(c))
+	case "errors.New":
+		return "(some { message := " + a[0] + " } : GoErr)", mon
 	case "NewError":
 		return "(some { code := " + a[0] + ", message := " + a[1] + ", header := [] } : GoErr)", mon
 	case "NewErrorWithHeader":
@@ -835,6 +843,17 @@ func (t *tr) stmt(ind int, s ast.Stmt) {
 						return
 					}
 				}
+				if src(sel) == "sort.Sort" && len(c.Args) == 1 {
+					if rc, ok := c.Args[0].(*ast.CallExpr); ok && src(rc.Fun) == "sort.Reverse" && len(rc.Args) == 1 {
+						if id, ok := rc.Args[0].(*ast.Ident); ok && t.sc.has(id.Name) {
+							if st, ptr := structName(t.varType(id.Name)); st != "" && !ptr {
+								lt := leanType(t.varType(id.Name))
+								t.line(ind, "%s := %s %s", t.lname(id.Name), ext("sort.SortReverse_"+st, lt+" → "+lt), t.lname(id.Name))
+								return
+							}
+						}
+					}
+				}
 				// sort.Sort(xs) on a local of a named slice type: an uninterpreted permutation of Ext
 				if src(sel) == "sort.Sort" && len(c.Args) == 1 {
 					if id, ok := c.Args[0].(*ast.Ident); ok && t.sc.has(id.Name) {
@@ -896,6 +915,16 @@ func (t *tr) stmt(ind int, s ast.Stmt) {
 				ns = append(ns, t.lname(n))
 			}
 			t.line(ind, "return %s", tuple(ns))
+			return
+		}
+		if len(x.Results) == 1 && len(t.results) > 1 {
+			// return f(…) of a function with as many results
+			c, ok := x.Results[0].(*ast.CallExpr)
+			if !ok || len(t.resultTypes(c)) != len(t.results) {
+				fail("return of %s", src(x.Results[0]))
+			}
+			v, _ := t.call(c)
+			t.line(ind, "return %s", v)
 			return
 		}
 		if len(x.Results) != len(t.results) {
@@ -968,6 +997,30 @@ func (t *tr) assignStmt(ind int, x *ast.AssignStmt) {
 			if x.Tok == token.DEFINE {
 				if cl, ok := x.Rhs[0].(*ast.CompositeLit); ok && src(cl.Type) == "bytes.Buffer" {
 					t.buffers[x.Lhs[0].(*ast.Ident).Name] = true
+				}
+				// x := &T{…}: the pointer never leaves the function (checked), the struct is kept as a value
+				if u, ok := x.Rhs[0].(*ast.UnaryExpr); ok && u.Op == token.AND {
+					if cl, ok := u.X.(*ast.CompositeLit); ok {
+						if st, _ := structName(cl.Type); st != "" && isGenStruct[st] {
+							id := x.Lhs[0].(*ast.Ident)
+							t.noEscape(id.Name)
+							v, _ := t.structLit(cl, st, true)
+							t.declare(ind, id.Name, v, false)
+							t.setType(id.Name, cl.Type)
+							return
+						}
+					}
+				}
+			}
+			// x.f = e on a struct kept as a value
+			if sel, ok := x.Lhs[0].(*ast.SelectorExpr); ok && x.Tok == token.ASSIGN {
+				if id, ok := sel.X.(*ast.Ident); ok && t.sc.has(id.Name) {
+					if st, ptr := structName(t.varType(id.Name)); st != "" && !ptr && isGenStruct[st] {
+						useField(st, sel.Sel.Name)
+						v, _ := t.expr(x.Rhs[0])
+						t.line(ind, "%s := { %s with %s := %s }", t.lname(id.Name), t.lname(id.Name), mangle(sel.Sel.Name), v)
+						return
+					}
 				}
 			}
 			v, _ := t.expr(x.Rhs[0])
@@ -1176,7 +1229,13 @@ func translate(key string) (text string, why string) {
 	if fd.Recv != nil && len(fd.Recv.List) == 1 && len(fd.Recv.List[0].Names) == 1 {
 		t.recv = fd.Recv.List[0].Names[0].Name
 		t.recvStruct = recvName(fd)
-		if flat || !isGenStruct[t.recvStruct] {
+		if _, isStruct := structFields[t.recvStruct]; !isStruct && leanType(fd.Recv.List[0].Type) != "" {
+			rt := fd.Recv.List[0].Type
+			t.sc.vars[t.recv] = true
+			t.setType(t.recv, rt)
+			params = append(params, fmt.Sprintf("(%s : %s)", mangle(t.recv), leanType(rt)))
+			recvUsed[key] = true
+		} else if flat || !isGenStruct[t.recvStruct] {
 			t.structOf[t.recv] = recvName(fd)
 		} else {
 			// the receiver is passed as a structure
@@ -1221,6 +1280,7 @@ func translate(key string) (text string, why string) {
 	}
 	body := &bytes.Buffer{}
 	t.out = body
+	t.push() // the scope of the function body: named results are declared in it
 	for _, r := range fd.Type.Results.List {
 		lt := leanType(r.Type)
 		if lt == "" {
@@ -1244,7 +1304,6 @@ func translate(key string) (text string, why string) {
 			}
 		}
 	}
-	t.push()
 	t.stmts(2, fd.Body.List)
 	t.pop()
 	flatExtras[key] = t.extras
@@ -1351,6 +1410,13 @@ func main() {
 	}
 	for _, st := range genStructs {
 		isGenStruct[st] = true
+	}
+	// first pass: which struct fields and Ext fields are used (the structures are emitted with these only)
+	for _, k := range targets {
+		translate(k)
+	}
+	for _, k := range targets {
+		isTarget[k] = true
 	}
 	var defs []string
 	var status []string
